@@ -249,68 +249,71 @@ struct IndexModel {
    std::vector<std::vector<int> > starts; std::vector<std::string> startNames;
    int partId;
 
-   void Add(Code c, int tn, Sel who, Sel before, int variant, const std::string & kind, bool orderDefined, const std::string & text)
+   bool coreOnly;
+   void Add(bool core, Code c, int tn, Sel who, Sel before, int variant, const std::string & kind, bool orderDefined, const std::string & text)
    {
+      if (coreOnly && !core) return;
       Op o; o.code = c; o.tn = tn; o.who = who; o.before = before; o.variant = variant; o.kind = kind; o.orderDefined = orderDefined;
       o.name = std::string(c == RESNAP ? "S1" : c == JOIN ? "S2" : kRoleName[kTnOwner[tn]]) + ": " + text; ops.push_back(o);
    }
    int FindOp(const std::string & name) const { for (size_t i = 0; i < ops.size(); i++) if (ops[i].name == name) return (int)i; fprintf(stderr, "C13: no op named '%s'\n", name.c_str()); exit(3); }
 
-   IndexModel() : partId(0)
+   explicit IndexModel(bool core = false) : partId(0), coreOnly(core)
    {
+      const bool C = true, F = false;   // C: also part of the core alphabet (the deep part)
       const int N = TN_ON, P = TN_PN;
       // simplest first
-      Add(INS, N, S_NONE, S_END, 0, "insert-at-end", true, "INSERTORDEREDDATA n, at the end");
-      Add(INS, N, S_NONE, S_FIRST, 0, "insert-before", true, "INSERTORDEREDDATA n, before the first entry");
-      Add(INS, N, S_NONE, S_SECOND, 0, "insert-before", true, "INSERTORDEREDDATA n, before the second entry");
-      Add(INS, N, S_NONE, S_LAST, 0, "insert-before", true, "INSERTORDEREDDATA n, before the last entry (>=3 entries)");
-      Add(INS, N, S_NONE, S_MISSING, 0, "insert-before-missing-name", true, "INSERTORDEREDDATA n, before the missing name zz");
-      Add(INS, N, S_NONE, S_XNI, 0, "insert-before-nonindexed-child", true, "INSERTORDEREDDATA n, before the non-indexed child x");
-      Add(INS2, N, S_NONE, S_NONE, 0, "insert-two-in-one-message", true, "INSERTORDEREDDATA n, two children in one Message (before the first entry, at the end)");
-      Add(SETIDX, N, S_A, S_NONE, 0, "set-addtoindex", true, "SETDATA n/a with ADDTOINDEX");
-      Add(SETIDX, N, S_B, S_NONE, 0, "set-addtoindex", true, "SETDATA n/b with ADDTOINDEX (b absent)");
-      Add(SETNODE, N, S_NONE, S_NONE, 0, "set-node", true, "SETDATA n");
-      Add(SETKID, N, S_NONE, S_NONE, 0, "set-nonindexed", true, "SETDATA n/x (plain)");
-      Add(SETFIRST, N, S_NONE, S_NONE, 0, "set-overwrites-indexed", true, "SETDATA n/<first entry> (plain overwrite)");
-      Add(REORD, N, S_FIRST, S_END, 0, "reorder-to-end", true, "REORDERDATA first entry -> end");
-      Add(REORD, N, S_FIRST, S_LAST, 0, "reorder-before", true, "REORDERDATA first entry -> before the last (>=3 entries)");
-      Add(REORD, N, S_FIRST, S_SECOND, 0, "reorder-before", true, "REORDERDATA first entry -> before the second");
-      Add(REORD, N, S_LAST2, S_FIRST, 0, "reorder-before", true, "REORDERDATA last entry -> before the first");
-      Add(REORD, N, S_FIRST, S_SELF, 0, "reorder-before-itself", true, "REORDERDATA first entry -> before itself");
-      Add(REORD, N, S_FIRST, S_XNI, 0, "reorder-before-nonindexed-child", false, "REORDERDATA first entry -> before the non-indexed child x");
-      Add(REORD, N, S_FIRST, S_OUT, 0, "reorder-out-of-index", true, "REORDERDATA first entry -> out of the index");
-      Add(REORD, N, S_LAST2, S_OUT, 0, "reorder-out-of-index", true, "REORDERDATA last entry -> out of the index");
-      Add(REORD, N, S_X, S_END, 0, "reorder-child-x-to-end", true, "REORDERDATA child x -> end (joins the index when it is not in it)");
-      Add(REORD, N, S_X, S_FIRST, 0, "reorder-child-x-before", true, "REORDERDATA child x -> before the first entry");
-      Add(REORD, N, S_XNI, S_OUT, 0, "reorder-nonindexed-out-of-index", true, "REORDERDATA non-indexed child x -> out of the index");
-      Add(REORD_ALL, N, S_NONE, S_END, 0, "reorder-wildcard-to-end", false, "REORDERDATA n/* -> end");
-      Add(REORD_ALL, N, S_NONE, S_OUT, 0, "reorder-wildcard-out-of-index", true, "REORDERDATA n/* -> out of the index");
-      Add(REORD_ALL, N, S_NONE, S_FIRST, 0, "reorder-wildcard-before", false, "REORDERDATA n/* -> before the first entry");
-      Add(RM_KID, N, S_FIRST, S_NONE, 0, "remove-indexed-child", true, "REMOVEDATA n/<first entry>");
-      Add(RM_KID, N, S_SECOND, S_NONE, 0, "remove-indexed-child", true, "REMOVEDATA n/<second entry>");
-      Add(RM_KID, N, S_LAST, S_NONE, 0, "remove-indexed-child", true, "REMOVEDATA n/<last entry> (>=3 entries)");
-      Add(RM_KID, N, S_XNI, S_NONE, 0, "remove-nonindexed-child", true, "REMOVEDATA n/x (x not indexed)");
-      Add(RM_NODE, N, S_NONE, S_NONE, 0, "remove-node", true, "REMOVEDATA n");
-      Add(RM_ALL, N, S_NONE, S_NONE, 0, "remove-wildcard", true, "REMOVEDATA n/*");
-      Add(BATCH_INS_REORD, N, S_NONE, S_NONE, 0, "batch-insert-reorder", true, "BATCH[INSERTORDEREDDATA n at the end, REORDERDATA first entry -> end]");
-      Add(BATCH_INS_GET, N, S_NONE, S_NONE, 0, "batch-insert-getdata", true, "BATCH[INSERTORDEREDDATA n at the end, GETDATA /*/*/*]");
-      Add(RESNAP, N, S_NONE, S_NONE, 0, "subscriber-requests-snapshot-again", true, "GETDATA /*/*/* (snapshot again: clear + inserts on the live replica)");
-      Add(JOIN, N, S_NONE, S_NONE, 0, "join-subscribe", true, "joins: SUBSCRIBE:/*/*/* (initial values carry the snapshot)");
-      Add(JOIN, N, S_NONE, S_NONE, 1, "join-quiet-subscribe-then-getdata", true, "joins: SUBSCRIBE:/*/*/* quietly, then GETDATA /*/*/*");
-      Add(JOIN, N, S_NONE, S_NONE, 2, "join-subscribe-and-getdata-in-one-read", true, "joins: SUBSCRIBE:/*/*/* and GETDATA /*/*/* in one read (two snapshots)");
-      Add(CLONE, N, S_NONE, S_NONE, 1, "clone-subtree", true, "CloneDataNodeSubtree n -> c (c absent)");
-      Add(CLONE, N, S_NONE, S_NONE, 2, "clone-subtree-onto-existing-clone", true, "CloneDataNodeSubtree n -> c twice (second time onto the existing clone)");
-      Add(RM_NODE, TN_OC, S_NONE, S_NONE, 0, "remove-clone", true, "REMOVEDATA c");
-      Add(RESTORE, N, S_NONE, S_NONE, 0, "save-remove-restore-subtree", true, "SaveNodeTreeToMessage n, REMOVE n, RestoreNodeTreeFromMessage");
-      Add(RESTORE, N, S_NONE, S_NONE, 1, "save-remove-child-restore-subtree", false, "SaveNodeTreeToMessage n, REMOVE n/<first entry>, RestoreNodeTreeFromMessage (over the existing rest)");
+      Add(C, INS, N, S_NONE, S_END, 0, "insert-at-end", true, "INSERTORDEREDDATA n, at the end");
+      Add(C, INS, N, S_NONE, S_FIRST, 0, "insert-before", true, "INSERTORDEREDDATA n, before the first entry");
+      Add(C, INS, N, S_NONE, S_SECOND, 0, "insert-before", true, "INSERTORDEREDDATA n, before the second entry");
+      Add(F, INS, N, S_NONE, S_LAST, 0, "insert-before", true, "INSERTORDEREDDATA n, before the last entry (>=3 entries)");
+      Add(C, INS, N, S_NONE, S_MISSING, 0, "insert-before-missing-name", true, "INSERTORDEREDDATA n, before the missing name zz");
+      Add(F, INS, N, S_NONE, S_XNI, 0, "insert-before-nonindexed-child", true, "INSERTORDEREDDATA n, before the non-indexed child x");
+      Add(F, INS2, N, S_NONE, S_NONE, 0, "insert-two-in-one-message", true, "INSERTORDEREDDATA n, two children in one Message (before the first entry, at the end)");
+      Add(C, SETIDX, N, S_A, S_NONE, 0, "set-addtoindex", true, "SETDATA n/a with ADDTOINDEX");
+      Add(F, SETIDX, N, S_B, S_NONE, 0, "set-addtoindex", true, "SETDATA n/b with ADDTOINDEX (b absent)");
+      Add(C, SETNODE, N, S_NONE, S_NONE, 0, "set-node", true, "SETDATA n");
+      Add(C, SETKID, N, S_NONE, S_NONE, 0, "set-nonindexed", true, "SETDATA n/x (plain)");
+      Add(C, SETFIRST, N, S_NONE, S_NONE, 0, "set-overwrites-indexed", true, "SETDATA n/<first entry> (plain overwrite)");
+      Add(C, REORD, N, S_FIRST, S_END, 0, "reorder-to-end", true, "REORDERDATA first entry -> end");
+      Add(C, REORD, N, S_FIRST, S_LAST, 0, "reorder-before", true, "REORDERDATA first entry -> before the last (>=3 entries)");
+      Add(F, REORD, N, S_FIRST, S_SECOND, 0, "reorder-before", true, "REORDERDATA first entry -> before the second");
+      Add(C, REORD, N, S_LAST2, S_FIRST, 0, "reorder-before", true, "REORDERDATA last entry -> before the first");
+      Add(F, REORD, N, S_FIRST, S_SELF, 0, "reorder-before-itself", true, "REORDERDATA first entry -> before itself");
+      Add(F, REORD, N, S_FIRST, S_XNI, 0, "reorder-before-nonindexed-child", false, "REORDERDATA first entry -> before the non-indexed child x");
+      Add(C, REORD, N, S_FIRST, S_OUT, 0, "reorder-out-of-index", true, "REORDERDATA first entry -> out of the index");
+      Add(F, REORD, N, S_LAST2, S_OUT, 0, "reorder-out-of-index", true, "REORDERDATA last entry -> out of the index");
+      Add(C, REORD, N, S_X, S_END, 0, "reorder-child-x-to-end", true, "REORDERDATA child x -> end (joins the index when it is not in it)");
+      Add(F, REORD, N, S_X, S_FIRST, 0, "reorder-child-x-before", true, "REORDERDATA child x -> before the first entry");
+      Add(F, REORD, N, S_XNI, S_OUT, 0, "reorder-nonindexed-out-of-index", true, "REORDERDATA non-indexed child x -> out of the index");
+      Add(F, REORD_ALL, N, S_NONE, S_END, 0, "reorder-wildcard-to-end", false, "REORDERDATA n/* -> end");
+      Add(F, REORD_ALL, N, S_NONE, S_OUT, 0, "reorder-wildcard-out-of-index", true, "REORDERDATA n/* -> out of the index");
+      Add(F, REORD_ALL, N, S_NONE, S_FIRST, 0, "reorder-wildcard-before", false, "REORDERDATA n/* -> before the first entry");
+      Add(C, RM_KID, N, S_FIRST, S_NONE, 0, "remove-indexed-child", true, "REMOVEDATA n/<first entry>");
+      Add(F, RM_KID, N, S_SECOND, S_NONE, 0, "remove-indexed-child", true, "REMOVEDATA n/<second entry>");
+      Add(C, RM_KID, N, S_LAST, S_NONE, 0, "remove-indexed-child", true, "REMOVEDATA n/<last entry> (>=3 entries)");
+      Add(C, RM_KID, N, S_XNI, S_NONE, 0, "remove-nonindexed-child", true, "REMOVEDATA n/x (x not indexed)");
+      Add(C, RM_NODE, N, S_NONE, S_NONE, 0, "remove-node", true, "REMOVEDATA n");
+      Add(C, RM_ALL, N, S_NONE, S_NONE, 0, "remove-wildcard", true, "REMOVEDATA n/*");
+      Add(C, BATCH_INS_REORD, N, S_NONE, S_NONE, 0, "batch-insert-reorder", true, "BATCH[INSERTORDEREDDATA n at the end, REORDERDATA first entry -> end]");
+      Add(F, BATCH_INS_GET, N, S_NONE, S_NONE, 0, "batch-insert-getdata", true, "BATCH[INSERTORDEREDDATA n at the end, GETDATA /*/*/*]");
+      Add(F, RESNAP, N, S_NONE, S_NONE, 0, "subscriber-requests-snapshot-again", true, "GETDATA /*/*/* (snapshot again: clear + inserts on the live replica)");
+      Add(C, JOIN, N, S_NONE, S_NONE, 0, "join-subscribe", true, "joins: SUBSCRIBE:/*/*/* (initial values carry the snapshot)");
+      Add(C, JOIN, N, S_NONE, S_NONE, 1, "join-quiet-subscribe-then-getdata", true, "joins: SUBSCRIBE:/*/*/* quietly, then GETDATA /*/*/*");
+      Add(F, JOIN, N, S_NONE, S_NONE, 2, "join-subscribe-and-getdata-in-one-read", true, "joins: SUBSCRIBE:/*/*/* and GETDATA /*/*/* in one read (two snapshots)");
+      Add(C, CLONE, N, S_NONE, S_NONE, 1, "clone-subtree", true, "CloneDataNodeSubtree n -> c (c absent)");
+      Add(F, CLONE, N, S_NONE, S_NONE, 2, "clone-subtree-onto-existing-clone", true, "CloneDataNodeSubtree n -> c twice (second time onto the existing clone)");
+      Add(F, RM_NODE, TN_OC, S_NONE, S_NONE, 0, "remove-clone", true, "REMOVEDATA c");
+      Add(C, RESTORE, N, S_NONE, S_NONE, 0, "save-remove-restore-subtree", true, "SaveNodeTreeToMessage n, REMOVE n, RestoreNodeTreeFromMessage");
+      Add(F, RESTORE, N, S_NONE, S_NONE, 1, "save-remove-child-restore-subtree", false, "SaveNodeTreeToMessage n, REMOVE n/<first entry>, RestoreNodeTreeFromMessage (over the existing rest)");
       // second owner, same kind of work on its own n
-      Add(INS, P, S_NONE, S_END, 0, "insert-at-end", true, "INSERTORDEREDDATA n, at the end");
-      Add(INS, P, S_NONE, S_FIRST, 0, "insert-before", true, "INSERTORDEREDDATA n, before the first entry");
-      Add(REORD, P, S_LAST2, S_FIRST, 0, "reorder-before", true, "REORDERDATA last entry -> before the first");
-      Add(REORD, P, S_FIRST, S_OUT, 0, "reorder-out-of-index", true, "REORDERDATA first entry -> out of the index");
-      Add(RM_KID, P, S_FIRST, S_NONE, 0, "remove-indexed-child", true, "REMOVEDATA n/<first entry>");
-      Add(RM_NODE, P, S_NONE, S_NONE, 0, "remove-node", true, "REMOVEDATA n");
-      Add(SETNODE, P, S_NONE, S_NONE, 1, "set-node", true, "SETDATA n (n absent)");
+      Add(C, INS, P, S_NONE, S_END, 0, "insert-at-end", true, "INSERTORDEREDDATA n, at the end");
+      Add(F, INS, P, S_NONE, S_FIRST, 0, "insert-before", true, "INSERTORDEREDDATA n, before the first entry");
+      Add(F, REORD, P, S_LAST2, S_FIRST, 0, "reorder-before", true, "REORDERDATA last entry -> before the first");
+      Add(F, REORD, P, S_FIRST, S_OUT, 0, "reorder-out-of-index", true, "REORDERDATA first entry -> out of the index");
+      Add(C, RM_KID, P, S_FIRST, S_NONE, 0, "remove-indexed-child", true, "REMOVEDATA n/<first entry>");
+      Add(F, RM_NODE, P, S_NONE, S_NONE, 0, "remove-node", true, "REMOVEDATA n");
+      Add(F, SETNODE, P, S_NONE, S_NONE, 1, "set-node", true, "SETDATA n (n absent)");
    }
 
    void AddStart(const std::string & name, const char * const * opNames)
@@ -358,7 +361,7 @@ struct IndexModel {
       for (int r = 0; r < NROLE; r++) if (!W.w->Attach(r, kHost[r], kId[r])) { msg = "attach failed"; key = "infra"; return -1; }
       W.w->Inject(RO, l1::Subscribe(kAll)); W.w->Inject(RS1, l1::Subscribe(kAll));
       W.w->Inject(RO, l1::SetData("n", l1::Payload(0))); W.w->Inject(RP, l1::SetData("n", l1::Payload(0)));
-      Shadow pre; int st = Carry(W, pre, "start", true, msg, key);
+      int st = Carry(W, "start", true, msg, key);
       if (st == SEQX_OK && !g_cleanPrefixes.count(W.seed)) { Op none; none.orderDefined = true; st = Compare(W, none, "start", msg, key); if (st == SEQX_OK) g_cleanPrefixes.insert(W.seed); }
       return st;
    }
@@ -392,7 +395,7 @@ struct IndexModel {
    int Exec(World & W, int opi, bool compare, std::string & msg, std::string & key) const
    {
       const Op & o = ops[opi];
-      const Shadow pre = W.ex; StepInfo inf;
+      StepInfo inf;
       if (!Step(W.ex, o, inf)) { msg = "executed reference disagrees with the eager reference about enabledness of " + o.name; key = "infra"; return -1; }
       l1::L1World & w = *W.w;
       const int tn = o.tn, r = kTnOwner[tn];
@@ -423,14 +426,18 @@ struct IndexModel {
             break;
       }
       if (!c13::g_apiError.empty()) { key = "api-error:" + inf.kind; msg = "the protected subtree API reported an error: " + c13::g_apiError; return SEQX_VIOLATION; }
-      const int st = Carry(W, pre, inf.kind, compare, msg, key);
-      if (st != SEQX_OK || !compare) return st;
-      return Compare(W, o, inf.kind, msg, key);
+      int st = Carry(W, inf.kind, compare, msg, key);
+      if (st == SEQX_OK && compare) st = Compare(W, o, inf.kind, msg, key);
+      if (getenv("C13_TRACE")) {   // debugging aid for --replay: what every client was sent, and the resulting indices
+         Replica real; if (w.RootNode()) CollectIndices(*w.RootNode(), "", real);
+         fprintf(stderr, "--- %s   [%s]\n%s    indices now: %s\n", o.name.c_str(), inf.kind.c_str(), W.receivedText.c_str(), ReplicaText(real).c_str());
+      }
+      return st;
    }
 
    // state-carrying part of the oracle: quiescence; every client's queue is drained and every index instruction applied to its
    // replica; real names of new children are bound to the reference's new tokens
-   int Carry(World & W, const Shadow & pre, const std::string & kind, bool compare, std::string & msg, std::string & key) const
+   int Carry(World & W, const std::string & kind, bool compare, std::string & msg, std::string & key) const
    {
       l1::L1World & w = *W.w;
       std::string q = w.CheckQuiescent();
@@ -474,7 +481,6 @@ struct IndexModel {
          }
          for (size_t i = 0; i < newTok.size(); i++) { W.bind[t][newReal[i]] = newTok[i]; W.inv[t][newTok[i]] = newReal[i]; }
       }
-      (void) pre;
       return SEQX_OK;
    }
 
@@ -512,7 +518,9 @@ struct IndexModel {
       for (int k = 0; k < 2; k++) {
          Replica snap; std::string err; const int role = k ? RO : RV;
          if (Snapshot(W, role, snap, err) != SEQX_OK || !(snap == real)) {
-            key = std::string("snapshot-vs-index:") + (k ? "owner-request:" : "observer:") + kind;
+            // an owner whose _indexingPresent flag is still unset is never sent its own nodes (GetDataCallback's shortcut): one root cause, one key
+            const bool flagUnset = (k == 1) && !w.S(RO)->_indexingPresent && !w.S(RO)->IsRoutingFlagSet(muscle::MUSCLE_ROUTING_FLAG_REFLECT_TO_SELF);
+            key = std::string("snapshot-vs-index:") + (k ? "owner-request:" : "observer:") + (flagUnset ? std::string("index-built-without-ordered-insert") : kind);
             msg = std::string("the snapshot sent to ") + kRoleName[role] + " on GETDATA /*/*/* " + (err.empty() ? ReplicaText(snap) : "(" + err + ")") + " differs from the server's ordered indices " + ReplicaText(real);
             return SEQX_VIOLATION;
          }
@@ -607,7 +615,7 @@ struct IndexModel {
 static std::string Rule(const IndexModel & m, int depth, const char * what)
 {
    return verif::Fmt("every sequence of <=%d commands from a %d-command alphabet, %s (%d start state(s)), each replayed on a fresh real ReflectServer with owner O (index node n, clone c; subscribed to /*/*/*), subscriber S1 (subscribed from the start), S2 (joins at any position, three ways, once), second owner P (own n) and an observer; "
-                     "alphabet: INSERTORDEREDDATA at end | before first/second/last | before a missing name | before a non-indexed child | two children in one Message; SETDATA+ADDTOINDEX a (also when a exists), b; plain SETDATA of n, of non-indexed x, of the first indexed child; "
+                     "full alphabet (50): INSERTORDEREDDATA at end | before first/second/last | before a missing name | before a non-indexed child | two children in one Message; SETDATA+ADDTOINDEX a (also when a exists), b; plain SETDATA of n, of non-indexed x, of the first indexed child; "
                      "REORDERDATA first->end | ->before last | ->before second | last->before first | first->before itself | ->before non-indexed x | first/last->out of index | x->end | x->before first | x->out | n/* ->end | ->out | ->before first; "
                      "REMOVEDATA first | second | last | non-indexed x | n | n/*; BATCH[insert, reorder]; BATCH[insert, GETDATA] by the subscribed owner; S1 GETDATA again; S2 joins (3 ways); CloneDataNodeSubtree n->c once | twice; REMOVEDATA c; save/remove n/restore; save/remove first child/restore; P: insert end | before first, reorder last->before first, first->out, remove first, remove n, re-create n; "
                      "<=4 children under O's n, <=3 under P's n; children addressed by position or fixed name only; "
@@ -630,32 +638,44 @@ int main(int argc, char ** argv)
    verif::Result res; res.harness = "C13_index";
    IndexModel empty; empty.EmptyStartOnly();
    IndexModel prefixed; prefixed.PrefixStarts(); prefixed.partId = 1;
+   IndexModel core(true); core.EmptyStartOnly(); core.partId = 2;
    if (!args.replay.empty()) {
       verif::ReplayDoc d; if (!d.Load(args.replay)) { fprintf(stderr, "cannot read %s\n", args.replay.c_str()); return 3; }
       if (d.Str("part") == "from-prefixes") { seqx::Explorer<IndexModel> ex(prefixed, args, res, "from-prefixes"); return ex.ReplayFile(d); }
+      if (d.Str("part") == "core-deep") { seqx::Explorer<IndexModel> ex(core, args, res, "core-deep"); return ex.ReplayFile(d); }
       seqx::Explorer<IndexModel> ex(empty, args, res, "from-empty"); return ex.ReplayFile(d);
    }
-   int depth = args.Thorough() ? 7 : 5, pdepth = args.Thorough() ? 5 : 3;
+   int depth = args.Thorough() ? 6 : 5, pdepth = args.Thorough() ? 4 : 3, cdepth = args.Thorough() ? 7 : 6;
    uint64_t cap = 6000000;
    if (args.kv.count("depth")) depth = atoi(args.kv["depth"].c_str());
    if (args.kv.count("pdepth")) pdepth = atoi(args.kv["pdepth"].c_str());
+   if (args.kv.count("cdepth")) cdepth = atoi(args.kv["cdepth"].c_str());
    if (args.kv.count("cap")) cap = (uint64_t)atoll(args.kv["cap"].c_str());
    const double budget = args.deadline * 0.9;
    if (args.WantPart("from-empty") && depth > 0) {
       seqx::Explorer<IndexModel> ex(empty, args, res, "from-empty");
-      ex.SetDeadline(args.t0 + budget * 0.65); ex.SetMaxStates(cap);
+      ex.SetDeadline(args.t0 + budget * 0.45); ex.SetMaxStates(cap);
       seqx::Stats S = ex.Run(depth);
       res.parts.back().rule = Rule(empty, depth, "from the empty start state");
       fprintf(stderr, "C13 from-empty: states=%llu transitions=%llu depth=%d exhaustive=%d outcomes=%llu violating=%llu wall=%.1fs\n", (unsigned long long)S.states, (unsigned long long)S.transitions, S.depthCompleted, (int)S.exhaustive, (unsigned long long)S.distinctOutcomes, (unsigned long long)S.violations, verif::NowS() - args.t0);
    }
    if (args.WantPart("from-prefixes") && pdepth > 0) {
       seqx::Explorer<IndexModel> ex(prefixed, args, res, "from-prefixes");
-      ex.SetDeadline(args.t0 + budget); ex.SetMaxStates(cap);
+      ex.SetDeadline(args.t0 + budget * 0.6); ex.SetMaxStates(cap);
       seqx::Stats S = ex.Run(pdepth);
       res.parts.back().rule = Rule(prefixed, pdepth, "from each of the populated start states (built with the same commands and checked by the same oracle)");
       std::string sn = "["; for (int i = 0; i < prefixed.NumStarts(); i++) { if (i) sn += ", "; sn += verif::JStr(prefixed.StartName(i)); } sn += "]";
       res.parts.back().extra["start_state_names"] = sn;
       fprintf(stderr, "C13 from-prefixes: states=%llu transitions=%llu depth=%d exhaustive=%d outcomes=%llu violating=%llu wall=%.1fs\n", (unsigned long long)S.states, (unsigned long long)S.transitions, S.depthCompleted, (int)S.exhaustive, (unsigned long long)S.distinctOutcomes, (unsigned long long)S.violations, verif::NowS() - args.t0);
+   }
+   if (args.WantPart("core-deep") && cdepth > 0) {
+      seqx::Explorer<IndexModel> ex(core, args, res, "core-deep");
+      ex.SetDeadline(args.t0 + budget); ex.SetMaxStates(cap);
+      seqx::Stats S = ex.Run(cdepth);
+      res.parts.back().rule = Rule(core, cdepth, "from the empty start state, CORE alphabet (the commands listed in extra.core_alphabet; same worlds, same oracle)");
+      std::string sn = "["; for (int i = 0; i < core.NumOps(); i++) { if (i) sn += ", "; sn += verif::JStr(core.OpName(i)); } sn += "]";
+      res.parts.back().extra["core_alphabet"] = sn;
+      fprintf(stderr, "C13 core-deep: states=%llu transitions=%llu depth=%d exhaustive=%d outcomes=%llu violating=%llu wall=%.1fs\n", (unsigned long long)S.states, (unsigned long long)S.transitions, S.depthCompleted, (int)S.exhaustive, (unsigned long long)S.distinctOutcomes, (unsigned long long)S.violations, verif::NowS() - args.t0);
    }
    res.observations.push_back("domain: children are addressed by index position or by the fixed names a, b, x; explicit names of the form I<digits> and the QUIET / REMOVE_QUIETLY flags are never used");
    res.observations.push_back("SETDATA with ADDTOINDEX on an EXISTING child changes nothing at all (neither payload nor index); a child that RestoreNodeTreeFromMessage has to re-create under a still existing parent is appended at the END of the index, not at its saved position (order after these commands is outside the compared domain; replicas still equal the index)");
